@@ -53,7 +53,7 @@ PROP = {
         "steps of applyBlockOnState that do not touch funds (status / delegation / discrimination switches, global parameters, fee rate, VRF threshold, burnt-coins records) are not modelled; that they leave the ledger alone is observed by the full ledger iteration after every real block (channel C04), not proved",
         "killSave (ceremony.go:960-971): the model burns the rest of a killed identity's stake at once, the code at Precommit of the same block (block-boundary states agree)",
         "transaction level: Props/C04Tx.lean (ledger model M-Ledger, audited under C05) with its hypotheses HeadOk (F9) and VmOk (contract VM obligations, C15)",
-        "chain fixture harness/internal/chainfx (real node start-up, virtual clock, ceremony attach shim), export shims blockchain--c04 / core__ceremony--c04"],
+        "chain fixture harness/internal/chainfx (real node start-up, virtual clock, ceremony attach shim; HistoryOpts.Contracts = real embedded TimeLock / Multisig contracts, contracts.go), export shims blockchain--c04 / core__ceremony--c04"],
     "assumptions": [
         "epoch distribution, exact statement (epochRewards_sum_le_pool, block_bound, chain_bound): every category total is at least the exact sum of the category's weights and below 2e16; the code accumulates the totals in float32 (rewards.go:86,270,285,498), which violates the first condition in about half of the generated cases — open finding C04:epoch-payouts-exceed-pool; on the code as found issuance is bounded by (1+eps)*(pool+6) per epoch (epochRewards_asFound_le / chain_bound_asFound) where 1/(1+eps) is the worst ratio float32-total / exact-sum (standard floating point error analysis: eps <= n*2^-24/(1-n*2^-24) for n additions; measured by the harness, not proved in Lean)",
         "penalties stored in the state are non-negative (the wire format drops the sign; SubPenalty never goes below zero)",
